@@ -13,7 +13,9 @@ for c in m['checks']:
     known = [e['obligation'] for e in kf if e['status'] == 'known' and e['property'] == p]
     names = {'bounded_relations_standin': 'relations', 'bounded_order_standin': 'target order', 'bounded_negotiation_standin': 'negotiation',
              'bounded_queue_standin': 'queue', 'bounded_dispose_standin': 'dispose', 'bounded_fault_standin': 'faults', 'bounded_waiting_standin': 'waiting',
-             'bounded_obligations': 'exclusive groups / determinism', 'schema_constants_unchanged_by_use': 'constants unchanged by use'}
+             'bounded_obligations': 'exclusive groups / determinism', 'schema_constants_unchanged_by_use': 'constants unchanged by use',
+             'bounded_clock_standin': 'clock views', 'bounded_handler_sequence_standin': 'handler sequence', 'bounded_helpers_standin': 'helpers',
+             'bounded_history_standin': 'history log', 'bounded_netmach_race_standin': 'network-machine race family', 'bounded_tracer_standin': 'tracer stream'}
     bounded = [names[k] for k in cov if k in names and cov[k]]
     rows.append(f"| {p} | {c['level_claimed']['category']} | {len(cov.get('functions_under_contract', []))} | {cov.get('discharged')} | {', '.join(bounded) or '-'} | {', '.join(fixed) or '-'} | {len(known) or '-'} |")
 txt = ("### 9.5 Claims as built (numbers from the committed quick-tier evidence)\n\n"
